@@ -1,7 +1,7 @@
 from vlib.core import *
 
 META = dict(
-    level_text="All integer content proved for every state and every library seed form: one step = 16807*s mod (2^31-1) (c19_step), closed state space (c19_closed, c19_orbit*), no signed overflow / wrap in any intermediate (c19_nowrap), seeds never degenerate (c19_seeds*). The theorems are about definitions regenerated from SimpleRandom.h on every run; purity (no global/static/time/address state) is decided structurally by the translator. The floating range [-0.5,0.5] is proved over exact arithmetic only and checked on all states in the thorough tier.",
+    level_text="All integer content proved for every state and every library seed form: one step = 16807*s mod (2^31-1) (c19_step), closed state space (c19_closed, c19_orbit*), no signed overflow / wrap in any intermediate (c19_nowrap), seeds never degenerate (c19_seeds*). The theorems are about definitions regenerated from SimpleRandom.h on every run; purity (no global/static/time/address state) is decided structurally by the translator, and every place where a generator object is created is extracted from the whole header tree on every run and proved to be a non-static local seeded by 0 or 2i+123j (c19_sites, c19_no_static_generator). The floating range [-0.5,0.5] is proved over exact arithmetic only and checked on all states in the thorough tier.",
     note="Lean kernel + propext/Classical.choice/Quot.sound; translator xlate + clang-14 AST (differential-tested every run against the compiled C++); LP64; IEEE monotone rounding for the float range",
     technique="Lean 4 proof (omega/induction) on source-translated definitions + differential correspondence",
     design="§5 C19", harnesses=['c19'])
@@ -15,7 +15,7 @@ def run(tier, seed, replay=None):
         out = os.path.join(R.work, 'replay'); rc, hlog = run_harness(exe, out, seed, tier, ['--replay', replay])
         R.failures += load_oracle(os.path.join(out, 'oracle.jsonl'))
         return R.finish()
-    standard_prove(R, 'C19', ['Rand'])
+    standard_prove(R, 'C19', ['Rand', 'RandSites'])
     r = standard_corr(R, 'c19', 'rand')
     if R.broken and not R.failures and tier == 'quick':
         R.notes.append('obligation broken: extended search (all 2^31-2 states) run')
